@@ -6,6 +6,7 @@ package main
 
 import (
 	"fmt"
+	"math"
 	"sort"
 	"strings"
 
@@ -451,6 +452,12 @@ func CheckFaithful(d *GDoc, pb lib.PBus) []finding {
 				if ps.Unit != s.Unit {
 					add("c10-signal-unit", "%s: unit %q, bus %q", sw, s.Unit, ps.Unit)
 				}
+				// the kind of the conversion rule: flag only for (1,0) [0|1] on one unsigned bit, decimal as soon
+				// as one of factor / offset / min / max has a fractional part (of either sign), integer otherwise
+				if want := expectedTypeKind(s); ps.TypeKind != want {
+					add("c10-signal-type-kind", "%s: (%v,%v) [%v|%v] size %d signed=%v needs type kind %d (1 flag, 2 integer, 3 decimal), bus has %d",
+						sw, s.Factor, s.Offset, s.Min, s.Max, s.Size, s.Signed, want, ps.TypeKind)
+				}
 			}
 		}
 	}
@@ -460,6 +467,19 @@ func CheckFaithful(d *GDoc, pb lib.PBus) []finding {
 		}
 	}
 	return out
+}
+
+func hasFraction(x float64) bool { return x != math.Trunc(x) }
+
+// expectedTypeKind: 1 flag, 2 integer, 3 decimal (acmelib.SignalTypeKind values)
+func expectedTypeKind(s *GSig) int {
+	if s.Size == 1 && !s.Signed && s.Factor == 1 && s.Offset == 0 && s.Min == 0 && s.Max == 1 {
+		return 1
+	}
+	if hasFraction(s.Factor) || hasFraction(s.Offset) || hasFraction(s.Min) || hasFraction(s.Max) {
+		return 3
+	}
+	return 2
 }
 
 func keysOf(m map[int64]bool) []int64 {
@@ -533,6 +553,7 @@ func CheckDecode(d *GDoc, pb lib.PBus, payloads [][]byte) ([]finding, lib.Tok) {
 		for _, p := range payloads {
 			data := p[:pm.Size]
 			raws := map[string]uint64{}
+			phys := map[string]any{}
 			func() {
 				defer func() {
 					if r := recover(); r != nil {
@@ -542,6 +563,7 @@ func CheckDecode(d *GDoc, pb lib.PBus, payloads [][]byte) ([]finding, lib.Tok) {
 				for _, dec := range pm.Msg.SignalLayout().Decode(data) {
 					if dec != nil {
 						raws[lib.ClearSpaces(dec.Signal.Name())] = dec.RawValue
+						phys[lib.ClearSpaces(dec.Signal.Name())] = dec.Value
 					}
 				}
 			}()
@@ -575,6 +597,19 @@ func CheckDecode(d *GDoc, pb lib.PBus, payloads [][]byte) ([]finding, lib.Tok) {
 				if !ok {
 					out = append(out, finding{"c10-decode-missing", fmt.Sprintf("message %q: no decoding for top-level signal %q", pm.Name, s.Name)})
 					continue
+				}
+				// physical value: a signal with a fractional conversion parameter decodes to raw*factor+offset as a float
+				if ps.Kind == 0 && expectedTypeKind(s) == 3 {
+					x := float64(got)
+					if s.Signed && s.Size < 64 && got&(uint64(1)<<(s.Size-1)) != 0 {
+						x = float64(int64(got | ^uint64(0)<<s.Size))
+					} else if s.Signed && s.Size == 64 {
+						x = float64(int64(got))
+					}
+					wantPhys := x*s.Factor + s.Offset
+					if v, ok := phys[s.Name].(float64); !ok || (v != wantPhys && !(math.IsNaN(v) && math.IsNaN(wantPhys))) {
+						out = append(out, finding{"c10-decode-physical", fmt.Sprintf("message %q signal %q (%v,%v) payload %x: raw %d decodes to %T %v, raw*factor+offset = %v", pm.Name, s.Name, s.Factor, s.Offset, data, got, phys[s.Name], phys[s.Name], wantPhys)})
+					}
 				}
 				want := dbcRaw(data, int(s.Start), int(s.Size), s.BE)
 				if got != want {
